@@ -699,7 +699,7 @@ func main() {
 	ctx.Jobs("record", len(alphabet), func(j int) { space(j) })
 	ctx.Jobs("timing-product", 16, func(j int) { timingProduct(j, 16) })
 	ctx.Jobs("long-takes", 16, func(j int) { longTakes(j, 16) })
-	ctx.Jobs("two-ports", 1, func(int) { twoRecordings(); recordTo(); reusingDriver(); queuedDriver() })
+	ctx.Jobs("two-ports", 1, func(int) { twoRecordings(); recordTo(); reusingDriver(); queuedDriver(); equalTakes(); closedWhileListening() })
 	ctx.Set("message_alphabet", len(alphabet))
 	ctx.Set("tempi", tempi)
 	ctx.Set("gaps_ms", gaps)
@@ -724,6 +724,11 @@ func replay() {
 	}
 	if m["kind"] == "reusing-driver" {
 		reusingDriver()
+		ctx.Finish("replay")
+	}
+	if m["kind"] == "equal-takes" || m["kind"] == "closed-while-listening" {
+		equalTakes()
+		closedWhileListening()
 		ctx.Finish("replay")
 	}
 	if m["kind"] == "queued-driver" {
